@@ -108,6 +108,26 @@ def run(ctx):
     scs = txscen.single_transmissions(rng, 64 * (6 if quick else 60), masks=masks) + txscen.stale_history(rng, 30 if quick else 300)
     mism, fam, nontriv, samples = run_family(ctx, "C02", txoracle.check_c02, scs, rng)
     cases, mism2, lat_som, lat_eom = receiver_level(ctx, rng, 28 if quick else 420, "C02")
+    # Fast EOM at the very end of a recording: one trailer burst on a quiet channel (a new receiver, or long after a header), the
+    # audio cut at its last sample, then the documented flush()
+    fl, fm = [], []
+    for j in range(3 if quick else 24):
+        rate = rng.choice(rxlib.STD_RATES)
+        tx = rxlib.Tx(rng, rate=rate, impaired=(j % 2 == 1))
+        pre = "" if j % 3 else ",".join("B%s,S1.00" % rxlib.burst_hex(tx.H) for _ in range(3)) + ",S12.00,"
+        fl.append(tx.line(script="S0.30," + pre + "B" + rxlib.burst_hex(b"NNNN"), extra="flush=3")); fm.append(bool(pre))
+    lone_ok = 0
+    for line, had_hdr, r in zip(fl, fm, rxlib.run_rx(fl, check_model=False)):
+        if r.get("error"):
+            ctx.violation("harness-failure", r["error"][:200], {"input": line}); continue
+        n_eom = sum(1 for e in rxlib.parse_events(r["impl"]) if e["kind"] == "eom") + r["extras"].get("flushed", "-").split("/").count("eom")
+        if n_eom != 1:
+            ctx.violation("property", "a single trailer burst on a quiet channel at the very end of the recording (then flush()): %d EndOfMessage "
+                          "reported, expected exactly 1" % n_eom, {"input": line, "events": r["impl"][:1500], "flushed": r["extras"].get("flushed")})
+        else:
+            lone_ok += 1
+    ctx.coverage["lone_trailer_at_end_of_input_ok"] = lone_ok
+    ctx.coverage["reuse_after_reset_same_messages"] = rxlib.reset_reuse(ctx, rng.fork("reset"), 3 if quick else 20, lambda t: t.startswith("TM"), True, "messages")
     ctx.coverage["known_finding_F9_witness_reproduces"] = rxlib.run_f9_witness(ctx, "C02")
     insts = [i for i in asmlib.theorem_instances(rng.fork("instances"), 180 if quick else 6000) if i[0].startswith("C02")]
     inst_ok, inst_names = asmlib.check_instances(ctx, insts)
